@@ -377,6 +377,101 @@ impl SubCheck for StopMem {
 }
 
 // ---------------------------------------------------------------------------------------------
+// stop while an answer cannot be written: "stopped" waits until it has been handed to the transport
+// ---------------------------------------------------------------------------------------------
+
+#[derive(Clone, Debug, Serialize, Deserialize)]
+pub struct UnreadCase {
+	/// size of the in-memory pipe between server and peer
+	pub pipe: u16,
+	/// length of the string the big call returns (always more than the pipe holds)
+	pub big: u16,
+	/// small calls answered before / queued behind the big answer
+	pub before: u8,
+	pub behind: u8,
+	pub buffer_capacity: u8,
+	pub lowlevel: bool,
+}
+
+pub struct UnreadAnswer;
+
+impl SubCheck for UnreadAnswer {
+	type Case = UnreadCase;
+	fn name(&self) -> &'static str {
+		"stop-with-unread-answer"
+	}
+	fn cases(&self, tier: Tier) -> u32 {
+		tier.pick(4_000, 80_000)
+	}
+	fn strategy(&self, _tier: Tier) -> BoxedStrategy<UnreadCase> {
+		(64u16..1024, 1500u16..20_000, 0u8..3, 0u8..4, prop_oneof![Just(1u8), Just(2u8), Just(64u8)], proptest::bool::weighted(0.25))
+			.prop_map(|(pipe, big, before, behind, buffer_capacity, lowlevel)| UnreadCase { pipe, big, before, behind, buffer_capacity, lowlevel })
+			.boxed()
+	}
+	fn run(&self, case: &UnreadCase, obs: &mut Obs) {
+		let rt = rt();
+		rt.block_on(async {
+			crate::panics::clear_local();
+			let fix = Fixture::new(Cfg { buffer_capacity: case.buffer_capacity.max(1) as u32, ..Cfg::default() });
+			let ws = if case.lowlevel { fix.ws_lowlevel().await } else { fix.ws_with(case.pipe as usize).await };
+			let Ok(mut ws) = ws else {
+				obs.fail("c10/ws-handshake", "failed".to_string());
+				return;
+			};
+			let desc = || format!("case={case:?}");
+			// a few calls answered and read in the ordinary way
+			for k in 0..case.before {
+				let _ = ws.send_text(&format!(r#"{{"jsonrpc":"2.0","id":"a{k}","method":"echo_sync","params":["a{k}"]}}"#)).await;
+			}
+			settle().await;
+			let early = ws.drain_texts();
+			obs.check(early.len() == case.before as usize, "c10/call-before-stop-not-answered", || format!("{early:?}; {}", desc()));
+			// the peer stops reading; the big answer does not fit into the pipe, more answers queue up behind it
+			ws.read_gate.pause();
+			// (the peer's reader is already waiting for one more message: it takes this one and then stops for good)
+			let _ = ws.send_text(r#"{"jsonrpc":"2.0","id":"last-read","method":"echo_sync","params":[0]}"#).await;
+			settle().await;
+			let _ = ws.drain_texts();
+			let _ = ws.send_text(&format!(r#"{{"jsonrpc":"2.0","id":"big","method":"big_async","params":[{},0,0]}}"#, case.big)).await;
+			for k in 0..case.behind {
+				let _ = ws.send_text(&format!(r#"{{"jsonrpc":"2.0","id":"b{k}","method":"echo_async","params":["b{k}"]}}"#)).await;
+			}
+			settle().await;
+			let started = fix.ctx.log.lock().iter().filter(|l| l.name == "big_async" || l.name == "echo_async").count();
+			let Fixture { handle, stop, methods, builder, .. } = fix;
+			let stopped_task = tokio::spawn(handle.clone().stopped());
+			let _ = handle.stop();
+			drop((stop, methods, builder));
+			settle().await;
+			// every one of those handlers has run; their answers cannot all have been written: the peer reads nothing
+			if started == 1 + case.behind as usize && !case.lowlevel {
+				obs.check(!stopped_task.is_finished(), "c10/stopped-before-answers-were-written", || format!("stopped() resolved while the peer had read nothing and the pipe ({} bytes) cannot hold the {}-byte answer; {}", case.pipe, case.big, desc()));
+				obs.nontrivial();
+			}
+			ws.read_gate.resume();
+			settle().await;
+			let texts = ws.drain_texts();
+			let mut want: Vec<String> = vec!["big".into()];
+			want.extend((0..case.behind).map(|k| format!("b{k}")));
+			for id in &want {
+				let got = texts.iter().filter_map(|t| serde_json::from_str::<Value>(t).ok()).find(|v| v["id"] == json!(id));
+				match got {
+					Some(v) if *id == "big" => {
+						obs.check(v["result"].as_str().is_some_and(|r| r.len() == case.big as usize), "c10/started-call-not-answered", || format!("big answer is wrong or cut short: {}; {}", truncate(&v.to_string(), 200), desc()));
+					}
+					Some(_) => {}
+					None => obs.fail("c10/started-call-not-answered", format!("call {id} had started before stop() but its answer never reached the peer; received {} messages; {}", texts.len(), desc())),
+				}
+			}
+			obs.check(stopped_task.is_finished(), "c10/stopped-never-resolves", || format!("the peer has read everything: stopped() is still pending; {}", desc()));
+			let panics = crate::panics::take_local();
+			obs.check(panics.is_empty(), "c10/background-panic", || format!("{panics:?}; {}", desc()));
+			obs.class(if case.lowlevel { "low-level-ws-connect" } else { "tower-service" });
+		});
+	}
+}
+
+// ---------------------------------------------------------------------------------------------
 // S-tcp: the real `Server::start` accept loop on loopback, real clock
 // ---------------------------------------------------------------------------------------------
 
@@ -558,13 +653,14 @@ pub fn check(ctx: &mut Ctx) {
 		"S-mem hosts connections with serve_with_graceful_shutdown + stop_channel (no accept loop); the accept loop is covered by the S-tcp sub-check".into(),
 	];
 	ctx.run_sub(&StopMem);
+	ctx.run_sub(&UnreadAnswer);
 	ctx.run_sub(&StopTcp);
 	let inc = INCONCLUSIVE.load(std::sync::atomic::Ordering::SeqCst);
 	ctx.extra.insert("tcp_inconclusive_cases".into(), json!(inc));
 }
 
 pub fn replay(file: &serde_json::Value) -> Option<i32> {
-	replay_with(&StopMem, file, "C10").or_else(|| replay_with(&StopTcp, file, "C10"))
+	replay_with(&StopMem, file, "C10").or_else(|| replay_with(&UnreadAnswer, file, "C10")).or_else(|| replay_with(&StopTcp, file, "C10"))
 }
 
 #[allow(dead_code)]
